@@ -109,4 +109,7 @@ def check(ctx) -> Result:
     res.count("files", len(ctx.tree.files))
     res.count("resolved_calls", sum(s.resolved_calls for s in ctx.eng.memo.values()))
     res.count("unknown_calls", sum(s.unknown_calls for s in ctx.eng.memo.values()))
+    from ..rules import rz_falsy
+    nz = rz_falsy.none_checks(ctx, res, "C08", ())
+    res.floor("Z functions scanned", nz, 3)
     return res
